@@ -179,7 +179,7 @@ type Hooks struct {
 	InitGlobal func(it *Interp, g *ssa.Global, obj int) bool
 	// MaxSteps bounds the work.
 	MaxSteps int
-	// MaxTime bounds the wall-clock time of one abstract run (default 40 s; the slowest run on the unchanged tree takes a few seconds).
+	// MaxTime bounds the wall-clock time of one abstract run (default 4 min, far above the few seconds of the slowest run on the unchanged tree so that machine load cannot trip it).
 	MaxTime time.Duration
 	// Polys enables exact polynomial tracking (poly.go).
 	Polys bool
@@ -219,7 +219,7 @@ func NewInterp(h Hooks) *Interp {
 		h.MaxSteps = 4000000
 	}
 	if h.MaxTime == 0 {
-		h.MaxTime = 40 * time.Second
+		h.MaxTime = 4 * time.Minute
 	}
 	return &Interp{started: time.Now(), St: &State{}, H: h, seen: map[string]bool{}, symInfo: map[string]Val{}, globals: map[*ssa.Global]int{}, InstrsSeen: map[ssa.Instruction]bool{}, ValOf: map[ssa.Value]Val{}}
 }
